@@ -116,7 +116,7 @@ def configs(tier, rep=None):
     return out
 
 
-QUOTES = {"q4": "«»‹›", "qlist": ["<a>", "\"&", "", "''x"], "qempty": ["", "", "‹", ""]}
+QUOTES = {"qeven": ["<<", ">>", "", ""], "q4": "«»‹›", "qlist": ["<a>", "\"&", "", "''x"], "qempty": ["", "", "‹", ""]}
 
 
 def opt_value(k, v):
